@@ -293,6 +293,43 @@ def add_row_margin_stream(res, rng, tier):
                                        expected=str({k: v[1] for k, v in diff.items()})[:300], what="add_row_margin differs from the proved model (key -> aggregate of the rows the key stands for)"))
 
 
+def all_label_stream(res, rng, tier, GroupBy):
+    """A group that is itself labelled 'All': the margin row of that name cannot coexist with it.  Either the call is rejected,
+    or the ordinary row keeps its value AND the total is reported under a different label - what must not happen is that the
+    total silently replaces the group's own value (which is what happened before /repo's fix)."""
+    from groupby_lib.groupby.core import crosstab
+    for t in range(40 if tier == "quick" else 400):
+        n = rng.randint(2, 8)
+        nkeys = rng.choice([1, 1, 2, 3])
+        labels = ["All", "b", "c"]
+        cols = [[rng.choice(labels if j == hot else ["x", "y", "z"]) for _ in range(n)] for j, hot in zip(range(nkeys), [rng.randrange(nkeys)] * nkeys)]
+        if not any("All" in c for c in cols):
+            cols[0][0] = "All"
+        vals = [float(rng.choice([1, 2, 4, 8, 16])) for _ in range(n)]
+        agg = rng.choice(["sum", "count", "min", "max", "mean", "size"])
+        how = rng.choice(["groupby", "groupby", "crosstab"]) if nkeys >= 2 else "groupby"
+        case = dict(stream="all-label", keys=cols, values=vals, agg=agg, how=how)
+        res.note_case(repr(case), True)
+        res.count("stream", "all-label")
+        keys = [np.array(c, dtype=object) for c in cols]
+        try:
+            if how == "crosstab":
+                idx, colk = keys[:1], keys[1:]
+                out = crosstab(idx[0], colk if len(colk) > 1 else colk[0], None if agg == "size" else np.array(vals), aggfunc=None if agg == "size" else agg, margins=True) if agg != "size" else crosstab(idx[0], colk if len(colk) > 1 else colk[0], margins=True)
+            else:
+                gb = GroupBy(keys if nkeys > 1 else keys[0])
+                out = gb.size(margins=True) if agg == "size" else getattr(gb, agg)(np.array(vals), margins=True)
+        except ValueError:
+            continue          # rejected: fine
+        except Exception as e:  # noqa: BLE001
+            res.violations.append(dict(sig=dict(stream="all-label", what="raised", exc=type(e).__name__), case=case, observed=repr(e)[:200], expected="ValueError or a table that keeps the group labelled 'All'",
+                                       what="margins with a group labelled 'All' raised something other than ValueError"))
+            continue
+        res.violations.append(dict(sig=dict(stream="all-label", what="accepted", how=how, nkeys=nkeys), case=case, observed=repr(out)[:300].replace("\n", " | "),
+                                   expected="a rejection (the total and the group labelled 'All' cannot share one row)",
+                                   what="margins were added although a group is labelled 'All': its row and the total collide"))
+
+
 def run(res, tier="quick", seed=0, widen=False):
     from groupby_lib import GroupBy
     rng = random.Random(seed * 41 + 14 + (1 if widen else 0))
@@ -303,6 +340,7 @@ def run(res, tier="quick", seed=0, widen=False):
     margins_stream(res, rng, tier, GroupBy)
     crosstab_stream(res, rng, tier)
     add_row_margin_stream(res, rng, tier)
+    all_label_stream(res, rng, tier, GroupBy)
 
 
 def replay(payload):
